@@ -158,6 +158,9 @@ func propC16(w *World, r *Report) {
 		return
 	}
 	c := runs.model.C
+	// R5: the slot "before the current one" is a completed frame only if the ring position advances solely by Move
+	checkRingUsage(w, r, runs.fault, "R5")
+	checkRingMove(w, r, "R5")
 	n := 0
 	for fn := range w.AllFuncs {
 		if rv := fn.Signature.Recv(); rv == nil || !isPtrTo(rv.Type(), c.T) || len(fn.Blocks) == 0 {
